@@ -1579,6 +1579,21 @@ impl<'a> World<'a> {
                     } else {
                         Some(fin[kv_u64(kv, "tx", 0) as usize % fin.len()].id)
                     }
+                } else if kv.iter().any(|(k, _)| k == "near") {
+                    let open: Vec<Id> = self.ledger.txs.iter().filter(|t| t.finals.is_empty() && t.gen == self.gen).map(|t| t.id).collect();
+                    if open.is_empty() {
+                        None
+                    } else {
+                        let mut id = open[kv_u64(kv, "tx", 0) as usize % open.len()];
+                        let bit = kv_u64(kv, "near", 0) as usize % 96;
+                        id[bit / 8] ^= 1 << (bit % 8);
+                        // (a one-bit neighbour that happens to be another outstanding id is practically impossible)
+                        if open.contains(&id) {
+                            None
+                        } else {
+                            Some(id)
+                        }
+                    }
                 } else {
                     let mut id = [0u8; 12];
                     let v = kv_u64(kv, "id", 7).to_be_bytes();
@@ -1820,7 +1835,14 @@ impl<'a> World<'a> {
                 let at = rng.below(horizon + dl.min(60 * SEC) + 1);
                 Some(match kind {
                     0 => format!("t={} kind=replay pkt={}", at, rng.below(16)),
-                    1 => format!("t={} kind=unknown id={} err={}", at, rng.below(1000), rng.below(2)),
+                    1 => {
+                        if rng.chance(1, 2) {
+                            // a near miss: the id of an outstanding request with one bit changed
+                            format!("t={} kind=unknown near={} tx={} err={}", at, rng.below(96), rng.below(8), rng.below(2))
+                        } else {
+                            format!("t={} kind=unknown id={} err={}", at, rng.below(1000), rng.below(2))
+                        }
+                    }
                     2 => {
                         if rng.chance(1, 2) {
                             format!("t={} kind=request", at)
